@@ -286,10 +286,11 @@ def run(ctx):
         pv_ = rcalls[1]._parent.targets[0].id if isinstance(rcalls[1]._parent, ast.Assign) else None
         rets = [pn.stmt for pn, l in rrg.exit.pred]
         okf = False
-        if len(rets) == 1 and isinstance(rets[0], ast.Return) and isinstance(rets[0].value, ast.Name):
-            vv = rrd.values(rrg.exit.pred[0][0], rets[0].value.id)
-            if len(vv) == 1 and isinstance(vv[0], ast.Call) and (call_name(vv[0]) or '').endswith('BytearrayStream') and vv[0].args:
-                okf = U(vv[0].args[0]) == '%s + %s' % (hv, pv_)
+        if len(rets) == 1 and isinstance(rets[0], ast.Return) and rets[0].value is not None:
+            from ..dataflow import resolve
+            fv_, _fn = resolve(rrd, rrg.exit.pred[0][0], rets[0].value)
+            if isinstance(fv_, ast.Call) and (call_name(fv_) or '').endswith('BytearrayStream') and fv_.args:
+                okf = U(fv_.args[0]) == '%s + %s' % (hv, pv_)
         ctx.check(okf, 'C12.R4', 'KmipSession._receive_request|frame-is-header-plus-payload', rsite, 'frame = header + payload',
                   'the decoded frame is not header + payload')
 
